@@ -423,3 +423,36 @@ impl<B: Region> BlockPool<B> {
         }
     }
 }
+
+/// Verification hook: the queues of a [`BlockPool`], in their internal order.
+#[cfg(feature = "mmtk_verif")]
+pub struct VerifBlockPoolDump<B> {
+    /// `count`
+    pub count: usize,
+    /// `head_global_freed_blocks` (bottom of the array first)
+    pub head: Option<Vec<B>>,
+    /// `global_freed_blocks` (Vec order; each array bottom first)
+    pub global: Vec<Vec<B>>,
+    /// `worker_local_freed_blocks`
+    pub locals: Vec<Vec<B>>,
+}
+
+#[cfg(feature = "mmtk_verif")]
+impl<B: Region> BlockPool<B> {
+    /// Verification hook: snapshot of every queue (only meaningful while no other thread runs).
+    pub fn verif_dump(&self) -> VerifBlockPoolDump<B> {
+        fn items<B: Region>(q: &BlockQueue<B>) -> Vec<B> {
+            let mut v = vec![];
+            q.iterate_blocks(&mut |b| v.push(b));
+            v
+        }
+        VerifBlockPoolDump {
+            count: self.count.load(Ordering::SeqCst),
+            head: self.head_global_freed_blocks.read().as_ref().map(items),
+            global: self.global_freed_blocks.read().iter().map(items).collect(),
+            locals: self.worker_local_freed_blocks.iter().map(items).collect(),
+        }
+    }
+    /// Verification hook: `BlockQueue::CAPACITY`.
+    pub const VERIF_CAPACITY: usize = BlockQueue::<B>::CAPACITY;
+}
